@@ -444,6 +444,8 @@ def monitors(tr, props):
             if len(tasks) > 1:
                 v.append(('C09', 'callbacks-on-several-threads', 'observer %s called on tasks %s' % (obs, sorted(tasks))))
             for (k_, val_, src_), (b_, e_, s_, t_) in emits.items():
+                if src_ == 'fb':
+                    continue  # pushed by the subscriber's own callback, which runs on the worker
                 if t_ in tasks and meta.get('variant', '').startswith('observe_on'):
                     v.append(('C09', 'callback-on-emitting-thread', 'callback ran on the emitting task %d' % t_))
                     break
@@ -574,13 +576,19 @@ def monitors(tr, props):
         items = [c[4] for c in A if c[3] == 'n']
         src = meta['sources']['p1']
         end1 = meta['end1']
+        fb = meta.get('feedback') or None
+        if fb:
+            # the subscriber pushed `fb` into the source from its callback for item 1: delivered once, after 1
+            if items.count(fb) != 1 or (1 in items and items.index(fb) < items.index(1)):
+                v.append(('C09', 'feedback-item', 'item %d pushed from the callback for 1: delivered %s' % (fb, items)))
+            items = [x for x in items if x != fb]
         if not meta.get('unsub'):
             exp = src[:meta.get('take', 99)]
             if items != exp:
                 v.append(('C09', 'items', '%s delivered %s, source emitted %s' % (meta['variant'], items, src)))
             terms = [c for c in A if c[3] in ('c', 'e')]
             if meta.get('take', 99) == 99:
-                if [t[3] for t in terms] != [end1]:
+                if [t[3] for t in terms] != ([] if end1 == '-' else [end1]):
                     v.append(('C09', 'terminal', '%s: terminals %s expected [%s]' % (meta['variant'], [t[3] for t in terms], end1)))
             if terms and A and A[-1][3] not in ('c', 'e'):
                 v.append(('C09', 'terminal-not-last', 'terminal is not the last event'))
